@@ -720,7 +720,7 @@ def _helper_candidates(repo: Repo, prot: set):
         # (an early return becomes a jump out of a synthetic try block; the CFG routes that jump past the helper's own handlers
         # and through its finally blocks, exactly like a return)
         sites = occ.get(name, []) if is_method else nocc.get((f.module, name), [])
-        if not 1 <= len(sites) <= 8:
+        if not 1 <= len(sites) <= 16:
             continue
         plans = []
         ok = True
@@ -1332,6 +1332,44 @@ def _forward_tuple_results(fn) -> bool:
     return changed
 
 
+def _resolve_tuple_subscripts(fn) -> bool:
+    """`t = (a, b)` (the only binding of t; a, b bound once, or parameters) ... `t[1]` is `b`: tuples are immutable, so a constant
+    subscript of such a local denotes the element it was built from"""
+    from .source import clone
+    stores: dict[str, int] = {}
+    defs: dict[str, ast.AST] = {}
+    for n in own_walk(fn):
+        if isinstance(n, ast.Name) and isinstance(n.ctx, (ast.Store, ast.Del)):
+            stores[n.id] = stores.get(n.id, 0) + 1
+        if isinstance(n, (ast.Assign, ast.AnnAssign)) and getattr(n, "value", None) is not None:
+            tg = n.targets if isinstance(n, ast.Assign) else [n.target]
+            if len(tg) == 1 and isinstance(tg[0], ast.Name) and isinstance(n.value, ast.Tuple):
+                defs[tg[0].id] = n.value
+    params = {a.arg for a in fn.args.posonlyargs + fn.args.args + fn.args.kwonlyargs}
+    changed = False
+    for n in list(own_walk(fn)):
+        if isinstance(n, ast.Subscript) and isinstance(n.ctx, ast.Load) and isinstance(n.value, ast.Name) and isinstance(n.slice, ast.Constant) \
+                and isinstance(n.slice.value, int) and not isinstance(n.slice.value, bool):
+            t = n.value.id
+            d = defs.get(t)
+            if d is None or stores.get(t, 0) != 1 or not (0 <= n.slice.value < len(d.elts)):
+                continue
+            e = d.elts[n.slice.value]
+            if not (isinstance(e, ast.Name) and (stores.get(e.id, 0) == 1 or (e.id in params and stores.get(e.id, 0) == 0))):
+                continue
+            par = getattr(n, "_parent", None)
+            rep = ast.copy_location(ast.Name(id=e.id, ctx=ast.Load()), n)
+            for f_, val in ast.iter_fields(par) if par is not None else []:
+                if val is n:
+                    setattr(par, f_, rep)
+                    changed = True
+                elif isinstance(val, list) and any(y is n for y in val):
+                    val[[y is n for y in val].index(True)] = rep
+                    changed = True
+            rep._parent = par
+    return changed
+
+
 def _split_parallel_assignments(fn) -> bool:
     """`a, b = x, y` is `a = x; b = y` when no right-hand side reads a target assigned before it (binding a local name has no effect
     of its own, so evaluating x, binding a, evaluating y, binding b is the same as evaluating x, y and binding both)"""
@@ -1669,6 +1707,10 @@ def resolve_aliases(repo: Repo):
                 for chd in ast.iter_child_nodes(par):
                     chd._parent = par
         _forward_pure_temps(f.node)
+        if _resolve_tuple_subscripts(f.node):
+            for par in ast.walk(f.node):
+                for chd in ast.iter_child_nodes(par):
+                    chd._parent = par
     for f in repo.all_funcs:
         if _canonical_snapshot_pop_loops(f.node):
             for par in ast.walk(f.node):
